@@ -523,11 +523,20 @@ func c13Inbound(c *explore.Ctx, k c13Cfg) {
 
 func runC13(c *explore.Ctx) {
 	c.Level = "model_checking"
-	c.Rule = "E2: (outbound) client Maximum Packet Size {none,30,40} x Topic Alias Maximum {0,1,2} x subscription id x every publish sequence of length <=3 (thorough 4) over 3 topics x payload lengths sweeping the limit; each received packet is measured and run through a client-side alias table; the same sequences are also published (QoS 1) while the subscriber is offline and must arrive on resume in order, except the oversize ones. (inbound) every validator-accepted configuration of the grid server_receive_maximum x topic_alias_maximum x max_packet_size x max_inflight x max_queued: alias values {0,1,max-1,max,max+1,65535} with topic / empty topic / rebinding, receive maximum r and r+1 outstanding QoS2, plus every sequence up to depth r+2 for r=1,2 (thorough: r+4 for r=1,2 and 5 for r=3) of {QoS1/QoS2 publish accepted, refused by the OnMsgArrived hook with a plain error (0x80) or a reason code (0x87), PUBREL} against the client's own count of unacknowledged publishes, packets of exactly max_packet_size and +1; within the advertised limits never disconnected and routed correctly, beyond them DISCONNECT 0x94/0x93/0x95; no panic; broker still serves."
+	c.Rule = "E2: (outbound) client Maximum Packet Size {none,30,40} x Topic Alias Maximum {0,1,2} x subscription id x every publish sequence of length <=3 (thorough 4) over 3 topics x payload lengths sweeping the limit; each received packet is measured and run through a client-side alias table; the same sequences are also published (QoS 1) while the subscriber is offline and must arrive on resume in order, except the oversize ones. (inbound) every validator-accepted configuration of the grid server_receive_maximum x topic_alias_maximum x max_packet_size x max_inflight x max_queued: alias values {0,1,max-1,max,max+1,65535} with topic / empty topic / rebinding, receive maximum r and r+1 outstanding QoS2, plus every sequence up to depth r+2 for r=1,2 (thorough: r+4 for r=1,2 and 5 for r=3) of {QoS1/QoS2 publish accepted, refused by the OnMsgArrived hook with a plain error (0x80) or a reason code (0x87), PUBREL} against the client's own count of unacknowledged publishes, packets of exactly max_packet_size and +1; within the advertised limits never disconnected and routed correctly, beyond them DISCONNECT 0x94/0x93/0x95; no panic; broker still serves. E3: a limit (alias / receive maximum / packet size) is exceeded in the same burst as 0..2 legitimate QoS 1 publishes, so that the write loop is busy when the violation is found: under every schedule with <=k deviations and every choice of a select with several ready cases the DISCONNECT with the reason code must be on the wire before the close."
 	c.Trusted = []string{"vsched default schedule", "refmqtt codec (packet sizes are measured on the wire)"}
 	if rc := replayCase(c); rc != nil {
 		if rc["part"] == "inbound-quota" {
 			c13Quota(c, uint16(rc["server_receive_maximum"].(float64)), intsOf(rc["seq"]))
+			return
+		}
+		if name, _ := rc["scenario"].(string); strings.HasPrefix(name, "limit-exceeded-with-busy-writer") {
+			obs := &c13BusyObs{}
+			r, div := explore.RunPrefix(intsOf(rc["choices"]), nil, true, c13BusyBody(obs, int(rc["limit"].(float64)), int(rc["before"].(float64))))
+			for _, l := range r.Log {
+				fmt.Println(l)
+			}
+			fmt.Println("divergence:", div, "problems:", obs.problems, "outcome:", obs.outcome)
 			return
 		}
 		c.Fatal("C13 replay: re-run ./run.sh C13 quick (cases are tiny); case %v", rc)
@@ -624,5 +633,6 @@ func runC13(c *explore.Ctx) {
 		}
 	})
 	c13QuotaPhase(c)
+	c13Busy(c)
 	c.Count("traces_validated_against_impl", c.Get("executions"))
 }
